@@ -382,6 +382,10 @@ func (ec *evalCtx) evalBuiltin(name string, call *ast.CallExpr) Value {
 			}
 			ec.st.Assume(Eq(App("chan.cap", SInt, c), capv))
 			ec.st.ghost["chanfresh:"+c.Name] = True
+			if ec.e().cs != nil && ec.e().closableElem(u.Elem()) {
+				ec.st.ghost["chanown:"+c.Name] = True
+				ec.st.ghost["chanopen"] = Store(chanOpenArr(ec.st), c, True)
+			}
 			return c
 		}
 		panic(unsupported("make(%s)", t))
@@ -404,7 +408,40 @@ func (ec *evalCtx) evalBuiltin(name string, call *ast.CallExpr) Value {
 		}
 		return r
 	case "close":
-		ec.eval(call.Args[0])
+		cv := ec.eval(call.Args[0])
+		if ct, ok := ec.info.TypeOf(call.Args[0]).Underlying().(*types.Chan); ok && ec.e().neverClosedElem(ct.Elem()) {
+			ec.oblige("close", False, call.Pos(), "close("+exprText(call.Args[0])+"): channels of this element type are declared neverclosed - senders that hold no lock rely on it")
+		}
+		if ec.closableChan(call.Args[0]) {
+			c := scalar(cv)
+			own := False
+			if c.Op == "var" {
+				if f, ok := ec.st.ghost["chanown:"+c.Name].(*Term); ok {
+					own = f
+				}
+			}
+			ec.oblige("close", own, call.Pos(), "close("+exprText(call.Args[0])+"): only the activation that made a channel closes it, and only once")
+			ec.oblige("close", Select(chanOpenArr(ec.st), c), call.Pos(), "close("+exprText(call.Args[0])+"): the channel must still be open (a second close panics)")
+			// every lock whose invariant speaks about chanopen must be held: the invariant is re-proved at its release
+			for _, li := range ec.e().cs.LockInvs {
+				if !strings.Contains(li.Text, "chanopen") {
+					continue
+				}
+				held := False
+				for k, v := range ec.st.ghost {
+					if strings.HasPrefix(k, "lock:") && strings.HasSuffix(k, "."+li.Mutex) {
+						if t, ok := v.(*Term); ok {
+							held = Or(held, t)
+						}
+					}
+				}
+				ec.oblige("close", held, call.Pos(), "close("+exprText(call.Args[0])+"): "+li.Type+"."+li.Mutex+" must be held - its invariant ("+li.Text+") speaks about which channels are open")
+			}
+			ec.st.ghost["chanopen"] = Store(chanOpenArr(ec.st), c, False)
+			if c.Op == "var" {
+				ec.st.ghost["chanown:"+c.Name] = False
+			}
+		}
 		if ci := ec.chanInvOf(call.Args[0]); ci != nil {
 			ec.oblige("send", False, call.Pos(), "close of a channel of "+ci.Elem+": receivers assume the channel invariant of every value received, a closed channel delivers zero values")
 		}
